@@ -368,10 +368,10 @@ class CommonRD:
         try:
             oldreg = self._by_key[key]
         except KeyError:
+            oldreg = None
             path = self._new_pathtail()
         else:
             path = oldreg.path[len(self.entity_prefix) :]
-            oldreg.delete()
 
         # this was the brutal way towards idempotency (delete and re-create).
         # if any actions based on that are implemented here, they have yet to
@@ -397,6 +397,16 @@ class CommonRD:
             proxy_host,
             setproxyremote,
         )
+
+        # The old registration is only removed once the new one was accepted:
+        # creating the Registration raises on bad parameters, and such a
+        # request (answered 4.xx) must leave the old registration in place.
+        if oldreg is not None:
+            oldreg.delete()
+            if proxy_host is not None:
+                # the old registration's deletion dropped the entry shared with
+                # (and already set by) the new one
+                setproxyremote(network_remote)
 
         self._by_key[key] = reg
         self._by_path[path] = reg
